@@ -163,3 +163,243 @@ Proof.
   - rewrite Hm. ring.
   - rewrite Hv. ring.
 Qed.
+
+(* ================= the batch formulas of the vectorised kernels (average.py / deviate.py _numpy)
+   give what the row-by-row recurrences give ================= *)
+
+(* numpy.average(q, weights = w) and the merge with the accumulator (ca, ma) *)
+Definition np_mean (rs : rows) : Qc := swq rs / sw rs.
+Definition np_merge_mean (ca ma : Qc) (rs : rows) : Qc := (ca * ma + sw rs * np_mean rs) / (ca + sw rs).
+
+Lemma sw_neq0 rs : pos_rows rs -> rs <> [] -> sw rs <> 0.
+Proof. intros Hp Hne. apply Qc_pos_neq0. apply sw_pos; assumption. Qed.
+
+Theorem np_average_kernel (rs : rows) e m :
+  0 < e -> pos_rows rs -> rs <> [] ->
+  lfills LAverage (mkst (XF e) (XF m) (XF 0)) rs =
+  mkst (XF (e + sw rs)) (XF (np_merge_mean e m rs)) (XF 0).
+Proof.
+  intros He Hp Hne. destruct (avg_run rs e m He Hp) as (m' & E & Hm). rewrite E. unfold mkst.
+  do 2 f_equal. unfold np_merge_mean, np_mean.
+  pose proof (sw_pos rs Hp Hne) as Hs.
+  assert (H1 : sw rs <> 0) by (apply Qc_pos_neq0; exact Hs).
+  assert (H2 : e + sw rs <> 0) by (apply Qc_pos_neq0; qc2q; simpl in *; lra).
+  assert (Em : m' = (e * m + swq rs) / (e + sw rs)).
+  { rewrite <- Hm. field. exact H2. }
+  rewrite Em. field. split; assumption.
+Qed.
+
+(* an empty accumulator: the batch mean itself *)
+Theorem np_average_kernel_empty (rs : rows) :
+  pos_rows rs -> rs <> [] ->
+  lfills LAverage (leaf_zero LAverage) rs = mkst (XF (sw rs)) (XF (np_mean rs)) (XF 0).
+Proof.
+  intros Hp Hne. destruct (average_denote rs Hp Hne) as (m & E & Hm). rewrite E. unfold mkst.
+  do 2 f_equal. unfold np_mean. pose proof (sw_neq0 rs Hp Hne) as H1.
+  rewrite <- Hm. field. exact H1.
+Qed.
+
+(* cb * numpy.average((q - mb)^2, weights = w) *)
+Definition np_sb (rs : rows) : Qc :=
+  swqq rs - (1 + 1) * np_mean rs * swq rs + np_mean rs * np_mean rs * sw rs.
+
+Definition np_merge_vte (ca ma sa : Qc) (rs : rows) : Qc :=
+  let cb := sw rs in
+  let mb := np_mean rs in
+  let mean := np_merge_mean ca ma rs in
+  sa + np_sb rs + ca * ma * ma + cb * mb * mb - (1 + 1) * mean * (ca * ma + cb * mb) + mean * mean * (ca + cb).
+
+Theorem np_deviate_kernel (rs : rows) e m v :
+  0 < e -> pos_rows rs -> rs <> [] ->
+  lfills LDeviate (mkst3 (XF e) (XF m) (XF v)) rs =
+  mkst3 (XF (e + sw rs)) (XF (np_merge_mean e m rs)) (XF (np_merge_vte e m v rs)).
+Proof.
+  intros He Hp Hne. destruct (dev_run rs e m v He Hp) as (m' & v' & E & Hm & Hv). rewrite E. unfold mkst3.
+  pose proof (sw_pos rs Hp Hne) as Hs.
+  assert (H1 : sw rs <> 0) by (apply Qc_pos_neq0; exact Hs).
+  assert (H2 : e + sw rs <> 0) by (apply Qc_pos_neq0; qc2q; simpl in *; lra).
+  assert (Em : m' = np_merge_mean e m rs).
+  { unfold np_merge_mean, np_mean. assert (Em0 : m' = (e * m + swq rs) / (e + sw rs)) by (rewrite <- Hm; field; exact H2).
+    rewrite Em0. field. split; assumption. }
+  assert (Ev : v' = np_merge_vte e m v rs).
+  { assert (Ev0 : v' = v + e * m * m + swqq rs - (e + sw rs) * m' * m') by (rewrite <- Hv; ring).
+    rewrite Ev0, Em. unfold np_merge_vte, np_sb, np_merge_mean, np_mean. cbv zeta. field. split; assumption. }
+  rewrite Em, Ev. reflexivity.
+Qed.
+
+(* ================= extrema ignoring NaN (Minimize; Maximize is symmetric) ================= *)
+Definition xrows := list (xq * Qc).      (* any quantity: finite, +-inf, NaN; weight > 0 *)
+
+Definition lfillsx (k : leafkind) (s : leafstate Xq) (rs : xrows) : leafstate Xq :=
+  fold_left (fun st (qw : xq * Qc) => match @leaf_fill Xq k st (@VNum Xq (fst qw)) (XF (snd qw)) with
+                                      | Some st' => st' | None => st end) rs s.
+
+Definition min_upd (m q : xq) : xq := if xisnan m || xltb q m then q else m.
+Definition max_upd (m q : xq) : xq := if xisnan m || xltb m q then q else m.
+
+Lemma lfillsx_min_l1 (rs : xrows) : forall s,
+  l1 (lfillsx LMin s rs) = fold_left min_upd (map fst rs) (l1 s).
+Proof.
+  induction rs as [|[q w] rs IH]; intro s; [reflexivity|].
+  cbn [lfillsx fold_left map fst snd]. fold (lfillsx LMin). cbn [leaf_fill as_real].
+  change (fold_left _ rs ?x) with (lfillsx LMin x rs). rewrite IH. reflexivity.
+Qed.
+
+Lemma lfillsx_max_l1 (rs : xrows) : forall s,
+  l1 (lfillsx LMax s rs) = fold_left max_upd (map fst rs) (l1 s).
+Proof.
+  induction rs as [|[q w] rs IH]; intro s; [reflexivity|].
+  cbn [lfillsx fold_left map fst snd]. fold (lfillsx LMax). cbn [leaf_fill as_real].
+  change (fold_left _ rs ?x) with (lfillsx LMax x rs). rewrite IH. reflexivity.
+Qed.
+
+(* m is the least of the non-NaN members of qs, NaN when there is none *)
+Definition is_min (m : xq) (qs : list xq) : Prop :=
+  (forall q, In q qs -> xisnan q = false -> xisnan m = false /\ xltb q m = false) /\
+  (xisnan m = false -> In m qs).
+
+Lemma xltb_nan_r q : xltb q XNaN = false.
+Proof. destruct q; reflexivity. Qed.
+
+Lemma xltb_false_trans a b c :
+  xisnan a = false -> xisnan b = false -> xisnan c = false ->
+  xltb b a = false -> xltb c b = false -> xltb c a = false.
+Proof.
+  intros Na Nb Nc H1 H2. destruct (xltb c a) eqn:E; [|reflexivity]. exfalso.
+  (* c < a, not (b < a), not (c < b): then a <= b <= c < a *)
+  destruct (xltb a b) eqn:Eab.
+  - pose proof (xltb_trans c a b E Eab) as H. congruence.
+  - assert (a = b) by (apply xltb_total; assumption). subst b. congruence.
+Qed.
+
+Lemma min_run (qs : list xq) : forall m0 seen,
+  is_min m0 seen -> is_min (fold_left min_upd qs m0) (seen ++ qs).
+Proof.
+  induction qs as [|q qs IH]; intros m0 seen H.
+  - rewrite app_nil_r. exact H.
+  - cbn [fold_left]. replace (seen ++ q :: qs) with ((seen ++ [q]) ++ qs) by (rewrite <- app_assoc; reflexivity).
+    apply IH. destruct H as [Hle Hin]. unfold min_upd.
+    destruct (xisnan m0) eqn:Nm; cbn [orb].
+    + (* nothing seen yet but NaNs: q becomes the candidate *)
+      split.
+      * intros x Hx Nx. apply in_app_or in Hx. destruct Hx as [Hx|[<-|[]]].
+        -- destruct (Hle x Hx Nx) as [C _]. congruence.
+        -- split; [exact Nx | apply xltb_irrefl].
+      * intros _. apply in_or_app. right. left. reflexivity.
+    + destruct (xltb q m0) eqn:C.
+      * (* q is smaller *)
+        assert (Nq : xisnan q = false) by (destruct q; try reflexivity; discriminate).
+        split.
+        -- intros x Hx Nx. apply in_app_or in Hx. destruct Hx as [Hx|[<-|[]]].
+           ++ destruct (Hle x Hx Nx) as [_ Hxm]. split; [exact Nq|].
+              destruct (xltb x q) eqn:E; [|reflexivity]. pose proof (xltb_trans x q m0 E C). congruence.
+           ++ split; [exact Nq | apply xltb_irrefl].
+        -- intros _. apply in_or_app. right. left. reflexivity.
+      * (* m0 stays *)
+        split.
+        -- intros x Hx Nx. apply in_app_or in Hx. destruct Hx as [Hx|[<-|[]]].
+           ++ destruct (Hle x Hx Nx) as [_ H']. split; [exact Nm | exact H'].
+           ++ split; [exact Nm | exact C].
+        -- intros _. apply in_or_app. left. apply Hin. reflexivity.
+Qed.
+
+Theorem min_denote (rs : xrows) :
+  is_min (l1 (lfillsx LMin (leaf_zero LMin) rs)) (map fst rs).
+Proof.
+  rewrite lfillsx_min_l1. change (map fst rs) with ([] ++ map fst rs). apply min_run.
+  split; [intros q [] | cbn; discriminate].
+Qed.
+
+Definition is_max (m : xq) (qs : list xq) : Prop :=
+  (forall q, In q qs -> xisnan q = false -> xisnan m = false /\ xltb m q = false) /\
+  (xisnan m = false -> In m qs).
+
+Lemma max_run (qs : list xq) : forall m0 seen,
+  is_max m0 seen -> is_max (fold_left max_upd qs m0) (seen ++ qs).
+Proof.
+  induction qs as [|q qs IH]; intros m0 seen H.
+  - rewrite app_nil_r. exact H.
+  - cbn [fold_left]. replace (seen ++ q :: qs) with ((seen ++ [q]) ++ qs) by (rewrite <- app_assoc; reflexivity).
+    apply IH. destruct H as [Hle Hin]. unfold max_upd.
+    destruct (xisnan m0) eqn:Nm; cbn [orb].
+    + split.
+      * intros x Hx Nx. apply in_app_or in Hx. destruct Hx as [Hx|[<-|[]]].
+        -- destruct (Hle x Hx Nx) as [C _]. congruence.
+        -- split; [exact Nx | apply xltb_irrefl].
+      * intros _. apply in_or_app. right. left. reflexivity.
+    + destruct (xltb m0 q) eqn:C.
+      * assert (Nq : xisnan q = false) by (destruct q; try reflexivity; destruct m0; discriminate).
+        split.
+        -- intros x Hx Nx. apply in_app_or in Hx. destruct Hx as [Hx|[<-|[]]].
+           ++ destruct (Hle x Hx Nx) as [_ Hxm]. split; [exact Nq|].
+              destruct (xltb q x) eqn:E; [|reflexivity]. pose proof (xltb_trans m0 q x C E). congruence.
+           ++ split; [exact Nq | apply xltb_irrefl].
+        -- intros _. apply in_or_app. right. left. reflexivity.
+      * split.
+        -- intros x Hx Nx. apply in_app_or in Hx. destruct Hx as [Hx|[<-|[]]].
+           ++ destruct (Hle x Hx Nx) as [_ H']. split; [exact Nm | exact H'].
+           ++ split; [exact Nm | exact C].
+        -- intros _. apply in_or_app. left. apply Hin. reflexivity.
+Qed.
+
+Theorem max_denote (rs : xrows) :
+  is_max (l1 (lfillsx LMax (leaf_zero LMax) rs)) (map fst rs).
+Proof.
+  rewrite lfillsx_max_l1. change (map fst rs) with ([] ++ map fst rs). apply max_run.
+  split; [intros q [] | cbn; discriminate].
+Qed.
+
+(* ================= Bag of numbers: the value -> weight map ================= *)
+Definition key_of (q : xq) : bagkey Xq := if xisnan q then @BNan Xq else @BNum Xq q.
+Definition key_is (k : bagkey Xq) (q : xq) : bool :=
+  match @bag_cmp Xq k (key_of q) with Eq => true | _ => false end.
+
+Fixpoint wkey (k : bagkey Xq) (rs : xrows) : Qc :=
+  match rs with
+  | [] => 0
+  | (q, w) :: r => if key_is k q then w + wkey k r else wkey k r
+  end.
+
+(* the map expected after the rows rs when it held [o] under k before *)
+Fixpoint bag_spec (k : bagkey Xq) (o : option xq) (rs : xrows) : option xq :=
+  match rs with
+  | [] => o
+  | (q, w) :: r =>
+      bag_spec k (if key_is k q then Some (match o with Some c => xadd c (XF w) | None => XF w end) else o) r
+  end.
+
+Lemma bag_spec_none k rs :
+  bag_spec k None rs = if existsb (fun qw => key_is k (fst qw)) rs then Some (XF (wkey k rs)) else None.
+Proof.
+  assert (G : forall rs c, bag_spec k (Some (XF c)) rs = Some (XF (c + wkey k rs))).
+  { induction rs0 as [|[q w] r IH]; intro c; cbn [bag_spec wkey].
+    - f_equal. f_equal. ring.
+    - destruct (key_is k q); cbn [xadd]; rewrite IH; f_equal; f_equal; ring. }
+  induction rs as [|[q w] r IH]; cbn [bag_spec wkey existsb fst]; [reflexivity|].
+  destruct (key_is k q); cbn [orb]; [|exact IH]. rewrite G. reflexivity.
+Qed.
+
+Lemma lfillsx_bag (rs : xrows) : forall s k, bsorted (lv s) ->
+  bsorted (lv (lfillsx (LBag RN) s rs)) /\
+  blookup k (lv (lfillsx (LBag RN) s rs)) = bag_spec k (blookup k (lv s)) rs.
+Proof.
+  induction rs as [|[q w] r IH]; intros s k S; [split; [exact S | reflexivity]|].
+  cbn [lfillsx fold_left fst snd]. fold (lfillsx (LBag RN)). cbn [leaf_fill as_real].
+  match goal with |- context [fold_left _ r ?x] => change (fold_left _ r x) with (lfillsx (LBag RN) x r) end.
+  match goal with |- context [lfillsx (LBag RN) ?x r] => set (s' := x) end.
+  assert (S' : bsorted (lv s')) by (subst s'; cbn [lv]; apply bs_upd; exact S).
+  destruct (IH s' k S') as [A B]. split; [exact A|]. rewrite B. cbn [bag_spec]. f_equal.
+  subst s'. cbn [lv]. rewrite bs_lookup_upd by exact S. unfold key_is, key_of. xproj.
+  destruct (@bag_cmp Xq k (if xisnan q then @BNan Xq else @BNum Xq q)) eqn:C; try reflexivity.
+  apply bag_cmp_eq in C. subst k. reflexivity.
+Qed.
+
+(* filled from empty: under every key (a number, or "nan" for NaN quantities) the map holds the
+   sum of the weights of the rows with that value, and nothing under other keys *)
+Theorem bag_denote (rs : xrows) k :
+  blookup k (lv (lfillsx (LBag RN) (leaf_zero (LBag RN)) rs)) =
+  if existsb (fun qw => key_is k (fst qw)) rs then Some (XF (wkey k rs)) else None.
+Proof.
+  destruct (lfillsx_bag rs (leaf_zero (LBag RN)) k) as [_ H]; [constructor|].
+  rewrite H. cbn [leaf_zero lv sl_lookup]. apply bag_spec_none.
+Qed.
